@@ -1,3 +1,26 @@
 import Nitime.Props.C20
 open Nitime.C20.Props
-#print axioms mi_eq_sum_stub
+#print axioms crosscov_is_lagged_sum
+#print axioms lag_reversal
+#print axioms zero_lag_position
+#print axioms crosscov_accepts_iff
+#print axioms autocorr_hermitian
+#print axioms autocov_zero_lag
+#print axioms xcorr_intended_is_direct
+#print axioms xcorr_intended_pair_reversal
+#print axioms xcorr_current_counterexample
+#print axioms xcorr_current_partial
+#print axioms pearson_abs_le_one
+#print axioms zscore_mean_zero_var_one
+#print axioms percent_change_mean_zero
+#print axioms entropy_nonneg
+#print axioms entropy_le_log_card
+#print axioms mi_eq_sum
+#print axioms Nitime.C20.Props.mi_nonneg
+#print axioms mi_symm
+#print axioms cond_le
+#print axioms relabel_invariant
+#print axioms permute_invariant
+#print axioms crosscov_along_axis
+#print axioms zscore_along_axis
+#print axioms percent_change_along_axis
